@@ -76,6 +76,7 @@ type tr struct {
 	curFn   string
 	segIn   map[types.Object]bool
 	helpers []string
+	selTy   map[string]ty
 	swCount int
 	indent  int
 }
@@ -486,6 +487,22 @@ func (t *tr) assigned(stmts []ast.Stmt) []string {
 		if ix, ok := e.(*ast.IndexExpr); ok {
 			e = ix.X
 		}
+		if se, ok := e.(*ast.SelectorExpr); ok {
+			// a field of a variable (receiver, parameter) is treated as a variable named <var>_<field>
+			if id, ok := se.X.(*ast.Ident); ok {
+				if _, isVar := t.info.Uses[id].(*types.Var); isVar {
+					name := id.Name + "_" + se.Sel.Name
+					if y, ok := t.typeOfExpr(se); ok {
+						t.selTy[name] = y
+					}
+					if !seen[name] {
+						seen[name] = true
+						out = append(out, name)
+					}
+				}
+			}
+			return
+		}
 		if id, ok := e.(*ast.Ident); ok && id.Name != "_" {
 			obj := t.info.Uses[id]
 			if obj == nil {
@@ -696,6 +713,11 @@ func (t *tr) assign(x *ast.AssignStmt) string {
 		// p[i] = e
 		if ix, ok := x.Lhs[0].(*ast.IndexExpr); ok {
 			id, ok := ix.X.(*ast.Ident)
+			if se, isSel := ix.X.(*ast.SelectorExpr); isSel {
+				if b, ok3 := se.X.(*ast.Ident); ok3 {
+					id, ok = &ast.Ident{Name: b.Name + "_" + se.Sel.Name}, true
+				}
+			}
 			if y, ok2 := t.typeOfExpr(ix.X); ok && ok2 && y.kind == "bytes" {
 				cur := "(" + leanName(id.Name) + ".getD " + t.natOf(ix.Index) + " 0#8)"
 				v := rhs
@@ -708,6 +730,13 @@ func (t *tr) assign(x *ast.AssignStmt) string {
 			return p + t.fail(x, "indexed store") + "\n"
 		}
 		id, ok := x.Lhs[0].(*ast.Ident)
+		if se, isSel := x.Lhs[0].(*ast.SelectorExpr); isSel {
+			if b, ok3 := se.X.(*ast.Ident); ok3 {
+				if _, isVar := t.info.Uses[b].(*types.Var); isVar {
+					id, ok = &ast.Ident{Name: b.Name + "_" + se.Sel.Name}, true
+				}
+			}
+		}
 		if !ok {
 			return p + t.fail(x, "assignment target") + "\n"
 		}
@@ -1111,6 +1140,10 @@ func (t *tr) segment(fd *ast.FuncDecl, sg Segment) string {
 		for _, o := range outs {
 			// type of the output variable
 			var y ty
+			if sy, ok := t.selTy[o]; ok {
+				rs = append(rs, sy.lean())
+				continue
+			}
 			ast.Inspect(fd, func(n ast.Node) bool {
 				if id, ok := n.(*ast.Ident); ok && id.Name == o {
 					if obj := t.info.ObjectOf(id); obj != nil {
@@ -1173,7 +1206,7 @@ func main() {
 		info := &types.Info{Types: map[ast.Expr]types.TypeAndValue{}, Defs: map[*ast.Ident]types.Object{}, Uses: map[*ast.Ident]types.Object{}}
 		conf := types.Config{Importer: importer.ForCompiler(fset, "source", nil), Error: func(error) {}, FakeImportC: true}
 		pkg, _ := conf.Check(bp.ImportPath, fset, files, info)
-		t := &tr{fset: fset, info: info, pkg: pkg, known: map[string]bool{}}
+		t := &tr{fset: fset, info: info, pkg: pkg, known: map[string]bool{}, selTy: map[string]ty{}}
 		decls := map[string]*ast.FuncDecl{}
 		for _, f := range files {
 			for _, d := range f.Decls {
